@@ -687,3 +687,202 @@ Example C05_ex_multiply_atomic_negative :
   rw_positions (sem e 6 (NConcat 0 [NLoop false 0 0 1 (NCharLoop COne LAtomic 0 97 1 INF); NMulti 0 [97; 98]]) rw_s0) = [2] /\
   rw_positions (sem e 6 (NConcat 0 [NCharLoop COne LAtomic 0 97 0 INF; NMulti 0 [97; 98]]) rw_s0) = [].
 Proof. vm_compute. split; reflexivity. Qed.
+
+(* ============================================================================================== *)
+(* PART 2 — the per-pattern link: the executable model of the optional rewrites is sound            *)
+(* ============================================================================================== *)
+From Verif Require Import Model.CharClass Model.Parser Model.FinalOpt Proofs.SpecBoundsProofs Proofs.CharClassRanges Proofs.CharClassOverlap
+  Proofs.FinalOptDen Proofs.FinalOptK Proofs.FinalOptPrune Proofs.FinalOptLink Proofs.FinalOptLeaf Proofs.FinalOptWalk Proofs.FinalOptAtomic Proofs.FinalOptAlt Proofs.FinalOptEnd Proofs.FinalOptMain.
+(* Model/FinalOpt.fo_final_optimize g strict lite cl t  is the tree syntax.Parse returns under gate mask g, computed
+   from the tree t it returns with every optional rewrite off (mask 31); leg c05-opt checks that per pattern and
+   mask against the real parser (exact trees), through the exact reference Model/FinalOptParse.v.
+   Semantics of a raw parser node: Proofs/FinalOptLink.tr (sets become set ids through a numbering sid; the
+   environment must read them as class membership: Proofs/FinalOptLeaf.env_ok, with three facts about the word
+   oracles).  Shape side condition: Model/FinalOpt.fo_wf (boolean, checked per tree by the leg).
+
+   PROVED here: for every tree, environment and mask whose prefix-factoring family is off (bit 16 set: families 1
+   automatic atomic loops, 2 removal of ending backtracking, 4 bump-along marker, 8 trimming / reordering of an
+   alternation inside an atomic group may be on in any combination), the model run with  strict = 15, lite = true
+   keeps the first result of the root from every state inside the text, hence the search finds the same match (both
+   directions).
+   The side conditions, all evaluated per tree by leg c05-opt (histogram "side-condition ..."):
+     strict bit 1  (no \B stepped over before the END OF THE EXPRESSION)  is NECESSARY: known finding
+                   c05-nonboundary-end, C05_R4_nonboundary_at_end_refuted above and C05_final_optimize_nb_refuted below;
+     strict bit 8  is a shape fact of parsed trees the code relies on silently: reduceAtomic's reordering reads the first
+                   character of a One / Multi node that starts a branch without testing that node's RightToLeft bit
+                   (only the Atomic node's); no tree seen has such a node below a left-to-right Atomic;
+     strict bits 2, 4 and lite mark what is NOT proved yet (hence `_partial`):
+       2  canBeMadeAtomic walking up through / processNode descending into a BALANCING capture,
+       4  canBeMadeAtomic walking up out of an atomic group it descended into itself (a successor of the loop),
+       lite  the mandatory reducers re-run by eliminateEndingBacktracking's Atomic wrapper (and on a reordered
+             alternation) must be the identity there;
+     (the descent FindLastExpressionInLoopForAutoAtomic, loop bodies whose last child is disjoint from the first, IS
+      covered, in processNode and in eliminateEndingBacktracking)
+     and prefix factoring (family 16) is outside: its RULES are R6 above; the model of its code, which re-runs the
+     whole of reduceAlternation, is tied to the parser by the leg only. *)
+
+(* canBeMadeAtomic (tree.go:893-1071) says true only if what follows the loop, whatever continuation the parents
+   allow, is dead wherever the loop may stop early, or (no \B stepped over) never fails *)
+Theorem C05_can_be_made_atomic_sound :
+  forall cat_in isw isew sid e sets, env_ok cat_in isw isew sid e sets ->
+  forall strict, Z.testbit strict 0 = true -> Z.testbit strict 1 = true -> Z.testbit strict 2 = true ->
+  forall f n sub c iter al seen,
+    fo_cbma cat_in isw isew f strict n sub c iter al seen = Ok true ->
+    node_ok sets n -> node_ok sets sub -> ctx_ok sets c ->
+    cbma_spec cat_in sid e n sub c iter seen.
+Proof. exact cbma_sound. Qed.
+Print Assumptions C05_can_be_made_atomic_sound.
+
+(* findAndMakeLoopsAtomic + processNode: the same first result under every continuation the parents allow *)
+Theorem C05_auto_atomic_loops_sound_partial :
+  forall cat_in isw isew sid e sets, env_ok cat_in isw isew sid e sets ->
+  forall strict, Z.testbit strict 0 = true -> Z.testbit strict 1 = true -> Z.testbit strict 2 = true ->
+  forall f x c x', fo_fa cat_in isw isew f strict x c = Ok x' -> node_ok sets x -> ctx_ok sets c ->
+    node_ok sets x' /\ forall K, CK sid e c K -> HK e K (tr sid x) (tr sid x').
+Proof. exact fa_sound. Qed.
+Print Assumptions C05_auto_atomic_loops_sound_partial.
+
+(* eliminateEndingBacktracking keeps the first result, the gated reduce (lite; reduceAtomic's alternation branch
+   included) every result *)
+Theorem C05_eliminate_ending_model_sound_partial :
+  forall cat_in isw isew sid e sets, env_ok cat_in isw isew sid e sets ->
+  forall g strict, fo_gate g 16 = true ->
+  Z.testbit strict 0 = true -> Z.testbit strict 1 = true -> Z.testbit strict 2 = true -> Z.testbit strict 3 = true ->
+  forall f,
+    (forall par node node', fo_ee cat_in isw isew f g strict true par node = Ok node' -> node_ok sets node ->
+        node_ok sets node' /\ rw_hrefines e (tr sid node) (tr sid node')) /\
+    (forall mode ptype x x', fo_reduce cat_in isw isew f g strict true mode ptype x = Ok x' -> node_ok sets x ->
+        node_ok sets x' /\ rw_refines e (tr sid x) (tr sid x')).
+Proof.
+  intros cat_in isw isew sid e sets Henv g strict H16 H0 H1 H2 H3 f.
+  destruct (ee_red_sound cat_in isw isew sid e sets Henv g strict H16 H0 H1 H2 H3 f) as [HE HR]. split.
+  - intros par node node' H Hok. destruct (HE par node node' H Hok) as (H4 & H5 & _). split; assumption.
+  - intros mode ptype x x' H Hok. exact (HR mode ptype x x' H Hok).
+Qed.
+Print Assumptions C05_eliminate_ending_model_sound_partial.
+
+(* the bump-along marker: every result kept *)
+Theorem C05_bump_along_model_sound :
+  forall sid e sets f g node aba committing node' mk,
+    fo_bump f g node aba committing = Ok (node', mk) -> node_ok sets node ->
+    node_ok sets node' /\ rw_refines e (tr sid node) (tr sid node').
+Proof.
+  intros sid e sets f g node aba committing node' mk H Hok.
+  destruct (bump_sound sid e sets f g node aba committing node' mk H Hok) as (H1 & H2 & _). split; assumption.
+Qed.
+Print Assumptions C05_bump_along_model_sound.
+
+(* the whole post-pass: same first result of the root from every state inside the text *)
+Theorem C05_final_optimize_sound_partial :
+  forall cat_in isw isew sid e sets, env_ok cat_in isw isew sid e sets ->
+  forall g, fo_gate g 16 = true ->
+  forall fuel cl root root', fo_wf root = true -> sets_in sets root ->
+    fo_final_optimize cat_in isw isew fuel g 0 false cl root = Ok root' ->        (* the code as it is ... *)
+    fo_final_optimize cat_in isw isew fuel g 15 true cl root = Ok root' ->        (* ... does not rely on a step outside the proof *)
+    fo_wf root' = true /\
+    forall s, st_ok e s -> hd_list (den e (tr sid root) s) = hd_list (den e (tr sid root') s).
+Proof.
+  intros cat_in isw isew sid e sets Henv g H16 fuel cl root root' Hwf Hs _ H.
+  destruct (final_optimize_sound cat_in isw isew sid e sets Henv g 15 H16 eq_refl eq_refl eq_refl eq_refl fuel cl root root' H (conj Hwf Hs))
+    as [[Hwf' _] Hh].
+  split; [exact Hwf' | exact Hh].
+Qed.
+Print Assumptions C05_final_optimize_sound_partial.
+
+(* ... hence the search (Spec.find: every start position in scan order) finds the same match, both ways *)
+Theorem C05_final_optimize_find_partial :
+  forall cat_in isw isew sid e sets, env_ok cat_in isw isew sid e sets ->
+  forall g, fo_gate g 16 = true ->
+  forall fuel cl root root', fo_wf root = true -> sets_in sets root ->
+    fo_final_optimize cat_in isw isew fuel g 0 false cl root = Ok root' ->
+    fo_final_optimize cat_in isw isew fuel g 15 true cl root = Ok root' ->
+    forall (rtl : bool) start prevlen r, 0 <= start <= tlen e ->
+      (forall f, find e f (tr sid root) rtl start prevlen = Ok r -> exists f', find e f' (tr sid root') rtl start prevlen = Ok r) /\
+      (forall f, find e f (tr sid root') rtl start prevlen = Ok r -> exists f', find e f' (tr sid root) rtl start prevlen = Ok r).
+Proof.
+  intros cat_in isw isew sid e sets Henv g H16 fuel cl root root' Hwf Hs H0 H rtl start prevlen r Hst.
+  destruct (C05_final_optimize_sound_partial cat_in isw isew sid e sets Henv g H16 fuel cl root root' Hwf Hs H0 H) as [_ Hh].
+  split; intros f Hf.
+  - apply (find_same_head e (tr sid root) (tr sid root') rtl) with (f := f); [|exact Hst|exact Hf].
+    intros p Hp. apply Hh. apply sb_init_ok. exact Hp.
+  - apply (find_same_head e (tr sid root') (tr sid root) rtl) with (f := f); [|exact Hst|exact Hf].
+    intros p Hp. symmetry. apply Hh. apply sb_init_ok. exact Hp.
+Qed.
+Print Assumptions C05_final_optimize_find_partial.
+
+(* ---------------------------------------------------------------------------------------------- *)
+(* Examples for part 2.  Environment: text t, word characters = the ASCII \w characters, no sets.    *)
+(* ---------------------------------------------------------------------------------------------- *)
+Definition c05_word (x : Z) : bool := mem ecma_word_ranges x.
+Definition c05_cat_in (name x : Z) : bool := if name =? cat_word then c05_word x else false.
+Definition c05_env (t : list Z) : env :=
+  {| txt := t; tstart := 0; ecma := false; endz_strict := false; set_in := fun _ _ => false;
+     lower := fun x => x; is_word := c05_word; is_eword := c05_word |}.
+
+Lemma c05_env_ok t : env_ok c05_cat_in c05_word c05_word (fun _ => 0) (c05_env t) [].
+Proof.
+  constructor; try reflexivity.
+  - intros c [].
+  - intros x H. discriminate.
+  - intros x H. exact H.
+  - intros ch [H|H]; [discriminate|]. split; [reflexivity|].
+    assert (Hw : mem ecma_word_ranges ch = false).
+    { unfold mem, in_range, ecma_space_ranges, ecma_word_ranges in *. cbn [existsb fst snd] in *. lia. }
+    split; [exact Hw | exact Hw].
+Qed.
+
+(* a*b : the loop becomes atomic and the marker is inserted; the theorem applies (mask 24: the three families of
+   finalOptimize on) and the search on "aab" finds the same match *)
+Definition c05_ex_astar_b : rnode :=
+  RN 28 0 0 0 (-1) [] None [RN 25 0 0 0 0 [] None [RN 3 0 97 0 INF [] None []; RN 9 0 98 0 0 [] None []]].
+Example C05_ex_final_optimize_applies :
+  let root' := RN 28 0 0 0 (-1) [] None
+                 [RN 25 0 0 0 0 [] None [RN 43 0 97 0 INF [] None []; RN T_Bump 0 0 0 0 [] None []; RN 9 0 98 0 0 [] None []]] in
+  fo_wf c05_ex_astar_b = true /\
+  fo_final_optimize c05_cat_in c05_word c05_word 20 24 0 false false c05_ex_astar_b = Ok root' /\
+  fo_final_optimize c05_cat_in c05_word c05_word 20 24 15 true false c05_ex_astar_b = Ok root' /\
+  find (c05_env [97; 97; 98]) 6 (tr (fun _ => 0) c05_ex_astar_b) false 0 (-1) = Ok (Some {| pos := 3; caps := [(0, [(0, 3)])] |}) /\
+  find (c05_env [97; 97; 98]) 6 (tr (fun _ => 0) root') false 0 (-1) = Ok (Some {| pos := 3; caps := [(0, [(0, 3)])] |}).
+Proof. vm_compute. repeat split; reflexivity. Qed.
+
+(* (?>ab|cd|ae)x under mask 16 (everything but prefix factoring): the branch ae moves in front of cd *)
+Definition c05_cc (a b : Z) : rnode := RN 25 0 0 0 0 [] None [RN 9 0 a 0 0 [] None []; RN 9 0 b 0 0 [] None []].
+Definition c05_ex_atomic_alt (brs : list rnode) : rnode :=
+  RN 28 0 0 0 (-1) [] None [RN 25 0 0 0 0 [] None [RN 32 0 0 0 0 [] None [RN 24 0 0 0 0 [] None brs]; RN 9 0 120 0 0 [] None []]].
+Example C05_ex_atomic_alternation_reordered :
+  let root := c05_ex_atomic_alt [c05_cc 97 98; c05_cc 99 100; c05_cc 97 101] in
+  let root' := c05_ex_atomic_alt [c05_cc 97 98; c05_cc 97 101; c05_cc 99 100] in
+  fo_wf root = true /\
+  fo_final_optimize c05_cat_in c05_word c05_word 20 16 0 false false root = Ok root' /\
+  fo_final_optimize c05_cat_in c05_word c05_word 20 16 15 true false root = Ok root'.
+Proof. vm_compute. repeat split; reflexivity. Qed.
+
+(* the side condition "no \B stepped over before the end of the expression" (strict bit 1) is necessary:
+   -+\B (known finding c05-nonboundary-end): the code makes the loop atomic, the strict model does not, and the
+   first result of the root from position 0 of "--a" changes (position 1 vs none) *)
+Definition c05_ex_nb : rnode :=
+  RN 28 0 0 0 (-1) [] None [RN 25 0 0 0 0 [] None [RN 3 0 45 1 INF [] None []; RN 17 0 0 0 0 [] None []]].
+Theorem C05_final_optimize_nb_refuted :
+  ~ (forall cat_in isw isew sid e sets, env_ok cat_in isw isew sid e sets ->
+     forall g, fo_gate g 16 = true ->
+     forall fuel cl root root', fo_wf root = true -> sets_in sets root ->
+       fo_final_optimize cat_in isw isew fuel g 0 false cl root = Ok root' ->
+       forall s, st_ok e s -> hd_list (den e (tr sid root) s) = hd_list (den e (tr sid root') s)).
+Proof.
+  intros H.
+  set (root' := RN 28 0 0 0 (-1) [] None [RN 25 0 0 0 0 [] None [RN 43 0 45 1 INF [] None []; RN T_Bump 0 0 0 0 [] None []; RN 17 0 0 0 0 [] None []]]).
+  specialize (H c05_cat_in c05_word c05_word (fun _ => 0) (c05_env [45; 45; 97]) [] (c05_env_ok _) 24 eq_refl
+                20%nat false c05_ex_nb root' eq_refl ltac:(cbn; tauto) ltac:(vm_compute; reflexivity)
+                {| pos := 0; caps := [] |} ltac:(apply sb_init_ok; cbn; lia)).
+  assert (H1 : den (c05_env [45; 45; 97]) (tr (fun _ => 0) c05_ex_nb) {| pos := 0; caps := [] |} = [{| pos := 1; caps := [(0, [(0, 1)])] |}]).
+  { apply fd_evals_den. exists 6%nat. vm_compute. reflexivity. }
+  assert (H2 : den (c05_env [45; 45; 97]) (tr (fun _ => 0) root') {| pos := 0; caps := [] |} = []).
+  { apply fd_evals_den. exists 6%nat. vm_compute. reflexivity. }
+  rewrite H1, H2 in H. discriminate.
+Qed.
+Print Assumptions C05_final_optimize_nb_refuted.
+
+Example C05_ex_nb_side_condition_fails :
+  fo_final_optimize c05_cat_in c05_word c05_word 20 24 0 false false c05_ex_nb <>
+  fo_final_optimize c05_cat_in c05_word c05_word 20 24 15 true false c05_ex_nb.
+Proof. vm_compute. discriminate. Qed.
